@@ -110,5 +110,11 @@ example : skipField recursionLimit .len 9 [0x02, 0xaa, 0xbb] = .ok [] := by rfl
 example : skipField recursionLimit .i32 9 [1, 2, 3, 4] = .ok [] := by rfl
 example : skipField recursionLimit .sgroup 9 [0x53, 0x08, 0x01, 0x54, 0x4c] = .ok [] := by rfl
 example : HasType Props.C05.demoSchema false 0 Props.C05.demoMsg := by decide
+example : WFSchema Props.C05.demoSchema = true := by decide
+-- `Interleaved` is inhabited by the concatenation of a value's records with themselves
+example : Interleaved Props.C05.demoSchema false (decls Props.C05.demoSchema 0) Props.C05.demoMsg Props.C05.demoMsg
+    (recsSlots Props.C05.demoSchema false (decls Props.C05.demoSchema 0) Props.C05.demoMsg ++
+     recsSlots Props.C05.demoSchema false (decls Props.C05.demoSchema 0) Props.C05.demoMsg) :=
+  (concat_is_interleaving _ (by decide) false 0 _ _ (by decide) (by decide)).1
 
 end Pilota.Props.C18
